@@ -67,6 +67,14 @@ def oracle_stream(ctx, census=None):
                 else:
                     p = rng.choice([None, pw, pw, "wrong"])
                 jobs.append((label, mlabel, k2, p, mdata, pw, kind))
+        for label, kind, pw, data, slow in corp:
+            if kind == "other":
+                continue
+            for mlabel, mdata in kf.structural_variants(data):
+                # cut points are tried with every class (the scanner is shared); other edits with the file's own
+                for k2 in (("rsa", "ec", "ed") if mlabel.startswith(("cut:", "line:only", "line:first")) else (kind,)):
+                    p = None if (slow or pw is None) else rng.choice([None, pw])
+                    jobs.append((label, mlabel, k2, p, mdata, pw, kind))
         for wl, kind, pw, data in kf.wrong_type_files(corp):
             for k2 in ("rsa", "ec", "ed"):
                 jobs.append((wl, "intact", k2, None, data, pw, "other"))
@@ -459,6 +467,13 @@ def text_stream(ctx):
                 if m is None:
                     m = kf.mutate_bytes(rng, data, datas)
                 variants.append(m)
+            if kind != "other" and not slow:
+                sv = list(kf.structural_variants(data))
+                cuts = [v for v in sv if v[0].startswith(("cut:", "line:only", "line:first"))]
+                rest = [v for v in sv if v not in cuts]
+                head = [v for v in cuts if any(v[0].endswith(t) or ("-line-%s-" % t[-1]) in v[0] for t in ("line-0", "line-1", "line-2"))]
+                variants += head + rng.sample([v for v in cuts if v not in head], min(6, len(cuts) - len(head))) \
+                    + rng.sample(rest, min(6, len(rest)))
             for vi, (mlabel, mdata) in enumerate(variants):
                 k2 = kind if (kind != "other" and rng.random() < 0.8) else rng.choice(["rsa", "ec", "ed"])
                 p = rng.choice([None, pw, "wrong"]) if pw is not None else rng.choice([None, "x"])
